@@ -362,8 +362,11 @@ func main() {
 			"coverage": cov, "assumptions": res.Assumptions,
 			"wall_s": time.Since(start).Seconds(), "violations": len(unlisted),
 		}
-		if ev["assumptions"] == nil {
+		if len(res.Assumptions) == 0 {
 			ev["assumptions"] = []string{}
+		}
+		if len(res.Trusted) == 0 {
+			cov["trusted_base"] = []string{}
 		}
 		if inconclusive != "" {
 			ev["inconclusive"] = inconclusive
